@@ -220,14 +220,41 @@ func noWriteBetween(al *ssa.Alloc, l1, l2 ssa.Instruction) bool {
 		return false
 	}
 	for _, s := range writers {
-		if ssau.CanFollow(l1, s) && ssau.CanFollow(s, l2) {
-			return false
-		}
-		if ssau.CanFollow(l2, s) && ssau.CanFollow(s, l1) {
-			return false
+		switch {
+		case ssau.Before(l1, l2):
+			if writeBetween(l1, s, l2) {
+				return false
+			}
+		case ssau.Before(l2, l1):
+			if writeBetween(l2, s, l1) {
+				return false
+			}
+		default:
+			if writeBetween(l1, s, l2) || writeBetween(l2, s, l1) {
+				return false
+			}
 		}
 	}
 	return true
+}
+
+// writeBetween: s can execute after first and before second without first being executed again in
+// between (when first dominates second, only the latest execution of first matters).
+func writeBetween(first, s, second ssa.Instruction) bool {
+	if !ssau.CanFollow(first, s) || !ssau.CanFollow(s, second) {
+		return false
+	}
+	if !ssau.Before(first, second) {
+		return true
+	}
+	// first dominates second: is there a way from s to second that does not pass first again?
+	if s.Block() == second.Block() && ssau.InstrIndex(s) < ssau.InstrIndex(second) {
+		return first.Block() != s.Block() || ssau.InstrIndex(first) < ssau.InstrIndex(s)
+	}
+	if s.Block() == first.Block() && ssau.InstrIndex(s) < ssau.InstrIndex(first) {
+		return false // first re-executes right after s
+	}
+	return ssau.ReachesAvoiding(s.Block(), second.Block(), map[*ssa.BasicBlock]bool{first.Block(): true})
 }
 
 // noStoreThrough: fn has no store whose address is a non-local pointer of type pt
